@@ -2273,11 +2273,12 @@ class Parameters:
 
             updates[pname] = new_val
 
-        with edit_constant(self_.self):
-            # Watchers are called once the syncing scope has been left: a
-            # plain value they assign to a linked parameter is an override
-            # like any other and ends that link.
-            with batch_call_watchers(self_.self):
+        # Watchers are called once the syncing scope (and the edit_constant
+        # that lets linked constants follow their source) has been left: a
+        # plain value they assign to a linked parameter is an override like
+        # any other and ends that link, and constants are constant for them.
+        with batch_call_watchers(self_.self):
+            with edit_constant(self_.self):
                 with _syncing(self_.self, updates):
                     self_.update(updates)
 
